@@ -6,7 +6,7 @@ for d in ${SEEDS:-seeded/*}; do
   out=$(tools/try_seed.sh "$PWD/$d/patch.diff" $pid 2>&1)
   if echo "$out" | grep -q "PATCH-DOES-NOT-APPLY"; then echo "$id DOES-NOT-APPLY";
   elif echo "$out" | grep -q "HARNESS"; then echo "$id HARNESS-ERROR";
-  elif echo "$out" | grep -q "^VIOLATION"; then echo "$id caught: $(echo "$out" | grep -m1 signature | cut -c1-110)";
+  elif echo "$out" | grep -q "^VIOLATION"; then echo "$id caught: $(echo "$out" | grep -m1 "^  signature" | cut -c1-110)";
   else echo "$id MISSED"; fi
 done
 echo "check_seeds done"
